@@ -38,7 +38,11 @@ class CumulativeAggregations(Expr):
         )
         chunks_last = TakeLast(chunks, self.skipna)
         return CumulativeFinalize(
-            chunks, chunks_last, self.aggregate_operation, self.neutral_element
+            chunks,
+            chunks_last,
+            self.aggregate_operation,
+            self.neutral_element,
+            self.skipna,
         )
 
     def _simplify_up(self, parent, dependents):
@@ -70,15 +74,27 @@ class TakeLast(Blockwise):
 
     @staticmethod
     def operation(a, skipna=True):
+        # The value carried into the following partitions: a scalar for a
+        # Series, one value per column (a Series) for a DataFrame, ``None``
+        # when this partition has nothing to carry
+        if len(a) == 0:
+            return None
         if skipna:
-            if a.ndim == 1 and (a.empty or a.isna().all()):
+            if a.ndim == 1 and a.isna().all():
                 return None
             a = a.ffill()
-        return a.tail(n=1).squeeze()
+        return a.iloc[-1]
 
 
 class CumulativeFinalize(Expr):
-    _parameters = ["frame", "previous_partitions", "aggregator", "neutral_element"]
+    _parameters = [
+        "frame",
+        "previous_partitions",
+        "aggregator",
+        "neutral_element",
+        "skipna",
+    ]
+    _defaults = {"skipna": True}
 
     def _divisions(self):
         return self.frame._divisions()
@@ -104,6 +120,7 @@ class CumulativeFinalize(Expr):
                     (intermediate_name, i - 1),
                     (previous_partitions._name, i - 1),
                     self.neutral_element,
+                    self.skipna,
                 )
             dsk[(self._name, i)] = (
                 cumulative_wrapper,
@@ -111,20 +128,60 @@ class CumulativeFinalize(Expr):
                 (self.frame._name, i),
                 (intermediate_name, i),
                 self.neutral_element,
+                self.skipna,
             )
         return dsk
 
 
-def cumulative_wrapper(func, x, y, neutral_element):
-    if isinstance(y, pd.Series) and len(y) == 0:
-        y = neutral_element
-    return func(x, y)
+def _nothing_carried(y):
+    return y is None or (isinstance(y, pd.Series) and len(y) == 0)
 
 
-def cumulative_wrapper_intermediate(func, x, y, neutral_element):
-    if isinstance(y, pd.Series) and len(y) == 0:
-        y = neutral_element
-    return methods._cum_aggregate_apply(func, x, y)
+def cumulative_wrapper(func, x, y, neutral_element, skipna=True):
+    """Combine the cumulated partition ``x`` with ``y``, the value carried
+    from all previous partitions (see ``TakeLast``)"""
+    if _nothing_carried(y) or len(x) == 0:
+        return x
+    if x.ndim == 1 or not isinstance(y, pd.Series):
+        return func(x, y)
+    # DataFrame: ``y`` holds one carried value per column. Combine column by
+    # column: the carried values travel in one Series of a common dtype, which
+    # must not leak into the dtypes of the columns
+    out = x.copy()
+    for pos in range(x.shape[1]):
+        value = y.iloc[pos]
+        if skipna and pd.isna(value):
+            # the column has had no valid value so far: nothing to combine
+            continue
+        column = func(x.iloc[:, pos], value)
+        if column.dtype != x.dtypes.iloc[pos]:
+            try:
+                column = column.astype(x.dtypes.iloc[pos])
+            except (TypeError, ValueError):
+                pass
+        out.isetitem(pos, column)
+    return out
+
+
+def cumulative_wrapper_intermediate(func, x, y, neutral_element, skipna=True):
+    """Combine the value ``x`` carried so far with the value ``y`` carried by
+    the next partition"""
+    if _nothing_carried(y):
+        return x
+    if _nothing_carried(x):
+        return y
+    if not (isinstance(x, pd.Series) and isinstance(y, pd.Series)):
+        return func(x, y)
+    if not skipna:
+        return func(x, y)
+    # one value per column, NaN = nothing carried for that column (skipna)
+    values = list(x.where(x.notna(), y))
+    both = (x.notna() & y.notna()).values
+    if both.any():
+        combined = func(x.iloc[both], y.iloc[both])
+        for k, pos in enumerate(both.nonzero()[0]):
+            values[pos] = combined.iloc[k]
+    return pd.Series(values, index=x.index)
 
 
 class CumSum(CumulativeAggregations):
